@@ -558,6 +558,18 @@ def nondet_sources(func):
                 'seed', 'rand', 'randn', 'randint', 'random_sample'}:
             out.append((n, 'legacy-global-rng', False, 'legacy global numpy RNG `%s` bypasses '
                         'the seeded generator' % cn))
+        elif isinstance(n.func, ast.Attribute) and n.func.attr == 'spawn' and \
+                not isinstance(n.func.value, ast.Call):
+            d = dotted(n.func.value) or ''
+            if d.split('.')[-1] in ('rng', 'bit_generator', 'seed_seq', '_seed_seq') or \
+                    'rng' in d.split('.'):
+                out.append((n, 'spawn-from-kept-generator', False,
+                            '`%s.spawn(..)` derives the children from the spawn counter of the '
+                            'generator\'s seed sequence, which is not part of the bit-generator '
+                            'state that the checkpoint stores: a resumed sampler starts again at '
+                            'child 0 and repeats proposal streams it has already used (points '
+                            'evaluated and stored twice); derive children from a value DRAWN from '
+                            'the generator instead' % d))
         elif cn in NONDET_CALLS:
             out.append((n, 'nondeterministic-call', False, '`%s` is not a function of the seed'
                         % cn))
@@ -1683,13 +1695,18 @@ def rule_F3(ctx, rid='F3'):
             if (c.name, attr) in (('Union', 'cube'),) and False:
                 continue
             fw = False
+            direct = set()
+            rcfg = cfg_of(r)
             for n in walk_no_nested(r.node):
                 if isinstance(n, ast.Call) and isinstance(n.func, ast.Attribute) and \
-                        n.func.attr == 'reset' and n.args and _own_generator(r, n.args[0]):
+                        n.func.attr == 'reset' and (n.args or n.keywords) and \
+                        _own_generator(r, (n.args or [n.keywords[0].value])[0]):
                     recv = n.func.value
                     ra = root_attr(recv, r.self_name)
                     if ra and ra[0] == attr:
                         fw = True
+                        if not ra[1] and rcfg.has(n):
+                            direct.add(rcfg.node_of(n).id)
                     if isinstance(recv, ast.Name):
                         # loop variable over self.<attr>
                         for lp in walk_no_nested(r.node):
@@ -1702,6 +1719,19 @@ def rule_F3(ctx, rid='F3'):
                    'reset(rng) forwards the generator to self.%s' % attr if fw else
                    'reset(rng) does not forward the generator to self.%s: a worker copy would '
                    'keep drawing from the parent generator' % attr)
+            if direct:
+                # ... on every path on which a generator was given and the member exists,
+                # whatever the other members are
+                from .cfg import assume
+                ok_all = rcfg.must_pass(rcfg.entry.id, rcfg.exit.id, direct, edge_ok=assume(
+                    ('rng is None', False), ('%s.%s is None' % (r.self_name, attr), False)))
+                ctx.ob(rid, '%s.reset:always-forwards(%s)' % (c.name, attr), ok_all, r.where(),
+                       'whenever a generator is given and self.%s exists it receives the '
+                       'generator' % attr if ok_all else
+                       'some path of reset(rng) with a generator given and self.%s present '
+                       'returns without `self.%s.reset(rng)` (e.g. an early return that depends '
+                       'on ANOTHER member): that member keeps the old generator - every pool job '
+                       'then draws the same proposals from it' % (attr, attr))
         # own generator replaced
         draws_own = any(any(d.startswith('self.rng.') for _, d, _ in res.direct(m).draws)
                         for m in c.methods.values())
@@ -1713,3 +1743,84 @@ def rule_F3(ctx, rid='F3'):
                    'reset(rng) installs the new generator for the object\'s own draws' if own
                    else 'reset(rng) keeps the old generator for the object\'s own draws')
     return n_sites
+
+
+# ---------------------------------------------------------------------------
+# G4 constructors agree on the order of an ordered member list
+# ---------------------------------------------------------------------------
+
+def _append_sequences(fn_node):
+    """attr -> [frozenset of attribute names mentioned by the k-th appended payload], for list
+    attributes of the object under construction that are filled by straight-line `.append`
+    calls (appends inside loops are element-wise copies and carry their own order)."""
+    obj = None
+    for n in ast.walk(fn_node):
+        if isinstance(n, ast.Assign) and isinstance(n.value, ast.Call) and \
+                isinstance(n.value.func, ast.Name) and n.value.func.id == 'cls' and \
+                isinstance(n.targets[0], ast.Name):
+            obj = n.targets[0].id
+    if obj is None:
+        return {}
+    in_loop = set()
+    for lp in ast.walk(fn_node):
+        if isinstance(lp, (ast.For, ast.While, ast.ListComp, ast.GeneratorExp)):
+            for x in ast.walk(lp):
+                in_loop.add(id(x))
+    seqs = {}
+    calls = [c for c in ast.walk(fn_node) if isinstance(c, ast.Call) and
+             isinstance(c.func, ast.Attribute) and c.func.attr == 'append' and c.args and
+             isinstance(c.func.value, ast.Attribute) and isinstance(c.func.value.value, ast.Name)
+             and c.func.value.value.id == obj and id(c) not in in_loop]
+    for c in sorted(calls, key=lambda c_: (c_.lineno, c_.col_offset)):
+        sig = frozenset(x.attr for x in ast.walk(c.args[0]) if isinstance(x, ast.Attribute) and
+                        isinstance(x.value, ast.Name) and x.value.id == obj)
+        seqs.setdefault(c.func.value.attr, []).append(sig)
+    return seqs
+
+
+def list_order_disagreements(ctors):
+    """[(attr, seq_a, seq_b)] for constructors whose straight-line appends to the same list
+    attribute are the same payloads in a different order."""
+    out = []
+    tabs = [(_n, _append_sequences(_c)) for _n, _c in ctors]
+    for i in range(len(tabs)):
+        for j in range(i + 1, len(tabs)):
+            for attr in set(tabs[i][1]) & set(tabs[j][1]):
+                a, b = tabs[i][1][attr], tabs[j][1][attr]
+                if len(a) >= 2 and sorted(map(sorted, a)) == sorted(map(sorted, b)) and a != b:
+                    out.append((attr, tabs[i][0], tabs[j][0]))
+    return out
+
+
+def rule_G4(ctx, rid='G4'):
+    ctx.rule(rid, 'constructors agree on member order: where compute() and read() fill the same '
+             'list attribute by separate append calls, they append the same payloads in the same '
+             'order (sample / reset walk the list while consuming one shared generator)')
+    n = 0
+    for c in ctx.program.classes.values():
+        ctors = [(m, c.methods[m].node) for m in ('compute', 'read', 'train') if m in c.methods]
+        if len(ctors) < 2:
+            continue
+        bad = list_order_disagreements(ctors)
+        n += 1
+        ctx.ob(rid, '%s:member-order-agrees' % c.name, not bad, c.methods[ctors[0][0]].where(),
+               'constructors build their ordered member lists in the same order' if not bad else
+               '%s() and %s() append the same members to self.%s in different orders: whatever '
+               'walks the list while drawing from the shared generator (sample, reset) consumes '
+               'the random numbers in another order after a write / read round trip - a '
+               'different sample stream from the same generator state' % (
+                   bad[0][1], bad[0][2], bad[0][0]))
+    # fixtures: the rule must see the positive example and stay silent on the negative one
+    for name, want in (('G4_bad.py', True), ('G4_good.py', False)):
+        with open(os.path.join(VERIF, 'fixtures', name)) as fh:
+            tree = ast.parse(fh.read())
+        got = False
+        for cl in ast.walk(tree):
+            if isinstance(cl, ast.ClassDef):
+                ct = [(f.name, f) for f in cl.body if isinstance(f, ast.FunctionDef) and
+                      f.name in ('compute', 'read')]
+                got = got or bool(list_order_disagreements(ct))
+        ctx.ob(rid, 'fixture:%s' % name, got == want, 'fixtures/%s:1' % name,
+               'the rule %s on the fixture as expected' % ('fires' if want else 'is silent'))
+    return n
+
